@@ -212,7 +212,12 @@ func encodeStream(s *Stream) ([]byte, Dict) {
 		}
 	}
 	var d Dict
-	if len(s.Chain) == 1 {
+	if len(s.Chain) == 1 && s.Array1 {
+		d = d.with("Filter", Arr{Name(s.Chain[0])})
+		if anyParm {
+			d = d.with("DecodeParms", parms[0])
+		}
+	} else if len(s.Chain) == 1 {
 		d = d.with("Filter", Name(s.Chain[0]))
 		if anyParm {
 			d = d.with("DecodeParms", parms[0])
